@@ -224,6 +224,10 @@ func isNondetCallee(name string) bool {
 	if nondetCallees[name] {
 		return true
 	}
+	// satori/go.uuid: V1/V2 are clock and host based, V4 is random; only the name-based V3/V5 are functions of their arguments
+	if name == "github.com/satori/go.uuid.NewV1" || name == "github.com/satori/go.uuid.NewV2" || name == "github.com/satori/go.uuid.NewV4" {
+		return true
+	}
 	return strings.HasPrefix(name, "math/rand.") || strings.HasPrefix(name, "crypto/rand.") || strings.HasPrefix(name, "github.com/google/uuid.New") ||
 		strings.HasPrefix(name, "(*math/rand.Rand)")
 }
